@@ -455,6 +455,7 @@ type simAgentConfig struct {
 	remoteIPFilter  func(net.IP) bool
 	disableActive   bool
 	extra           []AgentOption
+	viaConfig       bool // build the agent from an AgentConfig struct (NewAgent) instead of options
 }
 
 var simLoggerFactory = func() *logging.DefaultLoggerFactory { //nolint:gochecknoglobals
@@ -495,7 +496,33 @@ func (w *simWorld) newAgent(side int, cfg simAgentConfig) (*simAgent, error) {
 		opts = append(opts, WithDisableActiveTCP())
 	}
 	opts = append(opts, cfg.extra...)
-	a, err := NewAgentWithOptions(opts...)
+	var (
+		a   *Agent
+		err error
+	)
+	if cfg.viaConfig {
+		// the same configuration through the AgentConfig struct (only the fields C04 varies; no extras)
+		zero, hour := time.Duration(0), time.Hour
+		ac := &AgentConfig{
+			MulticastDNSMode: MulticastDNSModeDisabled, LoggerFactory: simLoggerFactory,
+			NetworkTypes:          []NetworkType{NetworkTypeUDP4, NetworkTypeUDP6},
+			HostAcceptanceMinWait: &zero, SrflxAcceptanceMinWait: &zero, PrflxAcceptanceMinWait: &zero, RelayAcceptanceMinWait: &zero,
+			CheckInterval: &hour, Lite: cfg.lite, EnableUseCandidateCheckPriority: cfg.checkPriority,
+			FailedTimeout: &cfg.failed, KeepaliveInterval: &cfg.keepalive,
+		}
+		if cfg.maxBinding > 0 {
+			ac.MaxBindingRequests = &cfg.maxBinding
+		}
+		if cfg.lite {
+			ac.CandidateTypes = []CandidateType{CandidateTypeHost}
+		}
+		if cfg.explicitTimeout || !cfg.lite {
+			ac.DisconnectedTimeout = &cfg.disconnected
+		}
+		a, err = NewAgent(ac)
+	} else {
+		a, err = NewAgentWithOptions(opts...)
+	}
 	if err != nil {
 		return nil, err
 	}
